@@ -302,7 +302,8 @@ class FnText:
                     self.edits.append((l.start, l.start, '*', ('T9', f'{a} {t.text} {b}')))
                     self.edits.append((r.start, r.start, '*', ('T9', f'{a} {t.text} {b}')))
                     return
-        raise Unsupported(f'{self.name}: @derefcmp {a} {b} {n}: comparison not found')
+        # the comparison is gone (the code changed): nothing to dereference; Verus judges the new text as it stands
+        return
 
     def wrapexpr(self, n, old, call, sig):
         """T5b: an expression Verus cannot take is moved, verbatim, into an external_body helper whose body
